@@ -227,6 +227,36 @@ def mk_indexed():
     return TopSel, TopNest
 
 
+def mk_own():
+    """a foreach in the OWN block of an object that sits below a list element (and below a plain attribute)"""
+    @vsc.randobj
+    class Cell(object):
+        def __init__(self, n):
+            self.vals = vsc.rand_list_t(vsc.bit_t(3), n)
+
+        @vsc.constraint
+        def cv(self):
+            with vsc.foreach(self.vals, idx=True) as i:
+                self.vals[i] < i + 2
+
+    @vsc.randobj
+    class Wrap(object):
+        def __init__(self, n):
+            self.cell = vsc.rand_attr(Cell(n))
+            self.t = vsc.rand_bit_t(2)
+
+    @vsc.randobj
+    class TopOwn(object):
+        def __init__(self, sizes):
+            self.one = vsc.rand_attr(Wrap(sizes[0]))
+            self.l = vsc.rand_list_t(Wrap(1))
+            for n in sizes[1:]:
+                self.l.append(Wrap(n))
+            self.direct = vsc.rand_list_t(Cell(1))
+            self.direct.append(Cell(sizes[-1]))
+    return TopOwn
+
+
 def run_indexed(job):
     kind = job[0]
     cnt = {"executions": 0, "transitions": 0, "states": 0, "nontrivial": 1, "equality_checked": 0, "pairs_checked": 0}
@@ -236,6 +266,31 @@ def run_indexed(job):
     def bad(sub, what, obs, exp, choices):
         if len(viol) < 4:
             viol.append({"subcheck": sub, "case": {"indexed": list(job), "choices": choices}, "observed": obs, "expected": exp, "what": what})
+    if kind == "own":
+        sizes = job[1]
+        TopOwn = mk_own()
+
+        def run(s):
+            o = TopOwn(sizes)
+            o.set_randstate(SRandState(s))
+            out = common.outcome(o.randomize)
+            d = {"one": [int(v) for v in o.one.cell.vals], "direct[0]": [int(v) for v in o.direct[0].vals]}
+            for k, w in enumerate(o.l):
+                d["l[%d]" % k] = [int(v) for v in w.cell.vals]
+            return out[0], d
+        for x in explore(run, bound=1, cap=4000):
+            cnt["executions"] += 1
+            cnt["transitions"] += len(x.trace) + 1
+            res_, d = x.obs
+            if res_ != "ok":
+                bad("indexed_call_failed", "own-block foreach, sizes %r: call ended with %r" % (sizes, res_), res_, "returns", x.choices)
+                continue
+            for path, vals in d.items():
+                if not all(v < 2 + i for i, v in enumerate(vals)):
+                    bad("subobject_block_not_enforced", "sizes %r: %s.vals = %r violates the foreach of its own block (vals[i] < 2+i); all "
+                        "values %r" % (sizes, path, vals, d), d, "every element obeys its object's block", x.choices)
+        cnt["states"] = 1
+        return {"cnt": cnt, "viol": viol}
     if kind == "sel":
         seq = job[1]
 
@@ -288,6 +343,8 @@ def indexed_jobs(tier):
     jobs = [("sel", list(s)) for s in it.product(range(3), repeat=2)] + [("sel", [0, 2, 1]), ("sel", [2, 2, 0]), ("sel", [1, 0, 1])]
     for sizes in ([1, 3, 2], [2, 1], [1, 2], [3, 1, 2], [2, 2]):
         jobs.append(("nest", sizes))
+    for sizes in ([2, 3], [1, 2, 3], [3, 1, 4], [2, 2, 2]):
+        jobs.append(("own", sizes))
     return jobs
 
 
